@@ -799,6 +799,18 @@ func getCompositeFieldValues(cadence.Composite) []cadence.Value
 func getCompositeTypeFields(cadence.CompositeType) []cadence.Field
 
 func (i valueImporter) importValue(value cadence.Value, expectedType sema.Type) (interpreter.Value, error) {
+	result, err := i.importUnboxedValue(value, expectedType)
+	if err != nil {
+		return nil, err
+	}
+
+	// A value of type T is also a value of type T?.
+	// Box it, like every transfer of a value to an optional-typed target does:
+	// a container must not hold a bare value where its static type says optional.
+	return interpreter.BoxOptional(i.context, result, expectedType), nil
+}
+
+func (i valueImporter) importUnboxedValue(value cadence.Value, expectedType sema.Type) (interpreter.Value, error) {
 	switch v := value.(type) {
 	case cadence.Void:
 		return interpreter.Void, nil
@@ -1311,6 +1323,11 @@ func (i valueImporter) importArrayValue(
 			return nil, errors.NewDefaultUserError("cannot import array: elements do not belong to the same type")
 		}
 
+		// The inferred element type may be optional (e.g. for `[nil, 1]`)
+		for index, value := range values {
+			values[index] = interpreter.BoxOptional(inter, value, elementSuperType)
+		}
+
 		staticArrayType = interpreter.NewVariableSizedStaticType(
 			inter,
 			interpreter.ConvertSemaToStaticType(inter, elementSuperType),
@@ -1405,6 +1422,11 @@ func (i valueImporter) importDictionaryValue(
 
 		if valueSuperType == sema.InvalidType {
 			return nil, errors.NewDefaultUserError("cannot import dictionary: values does not belong to the same type")
+		}
+
+		// The inferred value type may be optional (e.g. for `{"a": nil, "b": 1}`)
+		for index := range size {
+			keysAndValues[index*2+1] = interpreter.BoxOptional(inter, keysAndValues[index*2+1], valueSuperType)
 		}
 
 		dictionaryStaticType = interpreter.NewDictionaryStaticType(
